@@ -30,6 +30,7 @@ def run(prop: str, seed: int, workers: int, harness_hs: str, cases: int, out: st
             "VERIF_QUIET": "1",
             "VERIF_HARNESS_HASHSEED": harness_hs,
             "VERIF_MINIMISE_RUNS": "0",
+            "VERIF_BUDGET_S": "3000",  # (a variant slowed down by fewer workers or a busy machine must still run every case)
         }
     )
     env.pop("PYTHONHASHSEED", None)
